@@ -192,6 +192,9 @@ class MapValues(ExtObj):
             hs = getattr(path, 'headstate', None)
             if hs is not None:
                 hs['heap'][seen_ref.oid] = path.heap[seen_ref.oid].clone()
+            if getattr(spec, 'mods', None) is not None:
+                # per-loop frame: the bookkeeping set is not part of the program state
+                path.snapshots.get(spec.snap_name(), {}).pop(seen_ref.oid, None)
 
         spec.havoc = havoc
 
@@ -730,3 +733,65 @@ class _ItemView:
 
 
 VG.Config._loc = _loc
+
+
+# ---------------------------------------------------------------------------
+# holds(lambda: clauses): a specification expression inside a ghost driver, evaluated at term level (no path split)
+# ---------------------------------------------------------------------------
+def _flat(v):
+    if isinstance(v, (list, tuple)):
+        return all(_flat(x) for x in v)
+    return bool(v)
+
+
+def holds(f):
+    """the clause (or list of clauses) f() holds"""
+    return _flat(f())
+
+
+def q_holds(ex, args, kwargs):
+    (f,) = args
+    n0 = len(ex.pc)
+    ex.spec_mode += 1
+    try:
+        v = ex.call(f, [], {})
+        cls = ex.cfg.as_clause_list(ex, v)
+    finally:
+        ex.spec_mode -= 1
+    del ex.pc[n0:]
+    return ex.bool_and(cls)
+
+
+SS.SPEC_FORMS[holds] = q_holds
+
+
+# ---------------------------------------------------------------------------
+# contract / lemma kwarg feas_timeout_ms: budget of one inline feasibility query (default 3000 ms).  With quantified
+# table invariants in the path condition z3 answers `unknown` to most of them after the whole budget; `unknown` is
+# treated as feasible either way (exploring an infeasible path is sound: its obligations are valid), so a small
+# budget only saves time.
+# ---------------------------------------------------------------------------
+_orig_verify = VG.verify
+_OrigExplorer = VG.Explorer
+_FEAS = {'ms': None}
+
+
+class _Explorer(_OrigExplorer):
+    def __init__(self, *a, **k):
+        super().__init__(*a, **k)
+        if _FEAS['ms'] is not None:
+            self.feas_timeout_ms = _FEAS['ms']
+
+
+VG.Explorer = _Explorer
+
+
+def verify(registry, top, *a, **k):
+    _FEAS['ms'] = (getattr(top, 'extra', None) or {}).get('feas_timeout_ms')
+    try:
+        return _orig_verify(registry, top, *a, **k)
+    finally:
+        _FEAS['ms'] = None
+
+
+VG.verify = verify
